@@ -48,10 +48,23 @@ pub fn character_string_value(input: Input<'_>) -> ParserResult<'_, ASN1Value> {
 pub fn cstring(input: Input<'_>) -> ParserResult<'_, String> {
     map(raw_string_literal, |s| {
         // Replace any escaped quote with a single `"`
-        // TODO: Remove whitespace around newlines in multiline strings.
-        s.replace("\"\"", "\"")
+        join_lines(s).replace("\"\"", "\"")
     })
     .parse(input)
+}
+
+/// The end of a line inside a "cstring", together with the spacing characters
+/// immediately before and after it, is not part of the string (X.680 12.14.1).
+fn join_lines(cstring: &str) -> String {
+    const SPACING: [char; 5] = [' ', '\t', '\r', '\u{0B}', '\u{0C}'];
+    let mut joined = String::with_capacity(cstring.len());
+    let mut rest = cstring;
+    while let Some(end_of_line) = rest.find('\n') {
+        joined.push_str(rest[..end_of_line].trim_end_matches(SPACING));
+        rest = rest[end_of_line + 1..].trim_start_matches(SPACING);
+    }
+    joined.push_str(rest);
+    joined
 }
 
 /// Parses a string literal into its raw value.
